@@ -28,3 +28,49 @@ Proof. intros; destr_prods; unfold src_fft_out_shape_default, fft_out_shape_mode
 Lemma src_fft_out_shape_scratch_ok : forall (shape : Z * Z) (os : Z) (scr : Z * Z) (tilt : bool) (N : Z * Z),
   src_fft_out_shape_scratch shape os scr tilt N = fft_out_shape_model N (Some shape) os tilt (Some scr).
 Proof. intros; destr_prods; unfold src_fft_out_shape_scratch, fft_out_shape_model, out_shape; src_finish. Qed.
+
+(* /repo 1b12b57: the crop of the transformed grid (lentil.pad(field, shape_out)) before the Field is stored *)
+Definition fft_crop_model (N : Z * Z) (shape : option (Z * Z)) (os : Z) (tilt : bool) (scr : option (Z * Z))
+  : result (Z * Z) :=
+  match fft_out_shape_model N shape os tilt scr with Err e => Err e | Ok p => Ok (fst p) end.
+
+Lemma src_fft_crop_shape_ok : forall (shape : Z * Z) (os : Z) (tilt : bool) (N : Z * Z),
+  src_fft_crop_shape shape os tilt N = fft_crop_model N (Some shape) os tilt None.
+Proof. intros; destr_prods; unfold src_fft_crop_shape, fft_crop_model, fft_out_shape_model, out_shape; src_finish. Qed.
+
+Lemma src_fft_crop_shape_default_ok : forall (os : Z) (tilt : bool) (N : Z * Z),
+  src_fft_crop_shape_default os tilt N = fft_crop_model N None os tilt None.
+Proof. intros; destr_prods; unfold src_fft_crop_shape_default, fft_crop_model, fft_out_shape_model, out_shape; src_finish. Qed.
+
+Lemma src_fft_crop_shape_scratch_ok : forall (shape : Z * Z) (os : Z) (scr : Z * Z) (tilt : bool) (N : Z * Z),
+  src_fft_crop_shape_scratch shape os scr tilt N = fft_crop_model N (Some shape) os tilt (Some scr).
+Proof.
+  intros; destr_prods; unfold src_fft_crop_shape_scratch, fft_crop_model, fft_out_shape_model, out_shape; src_finish.
+Qed.
+
+(* the statements of Properties/C09Src.v *)
+Lemma src_fft_crop_shape_stmt : forall (shape : Z * Z) (os : Z) (tilt : bool) (N : Z * Z),
+  src_fft_crop_shape shape os tilt N =
+  if tilt then Err NotImplementedErr else out_shape (fst N) (snd N) (Some shape) os.
+Proof.
+  intros. rewrite src_fft_crop_shape_ok. unfold fft_crop_model, fft_out_shape_model.
+  destruct tilt; [reflexivity|]. now destruct (out_shape _ _ _ _).
+Qed.
+Lemma src_fft_crop_shape_default_stmt : forall (os : Z) (tilt : bool) (N : Z * Z),
+  src_fft_crop_shape_default os tilt N = if tilt then Err NotImplementedErr else Ok N.
+Proof.
+  intros. rewrite src_fft_crop_shape_default_ok. unfold fft_crop_model, fft_out_shape_model, out_shape.
+  destruct tilt; [reflexivity|]. now destruct N.
+Qed.
+Lemma src_fft_crop_shape_scratch_stmt : forall (shape : Z * Z) (os : Z) (scr : Z * Z) (tilt : bool) (N : Z * Z),
+  src_fft_crop_shape_scratch shape os scr tilt N =
+  if tilt then Err NotImplementedErr else
+  match out_shape (fst N) (snd N) (Some shape) os with
+  | Err e => Err e
+  | Ok so => if negb ((fst N <=? fst scr) && (snd N <=? snd scr)) then Err ValueError else Ok so
+  end.
+Proof.
+  intros. rewrite src_fft_crop_shape_scratch_ok. unfold fft_crop_model, fft_out_shape_model.
+  destruct tilt; [reflexivity|]. destruct (out_shape _ _ _ _); [|reflexivity].
+  now destruct (negb _).
+Qed.
